@@ -21,6 +21,10 @@ func c10Lookups(c *ctx) {
 	c.header = func() { c.emit(obj{"ev": "C10Env", "now": now}) }
 	for bi, base := range bases {
 		years := []int{base, base + 1, now - 1, now}
+		// a result before the base year can only be a 60-year partner of the year before it
+		for k := 1; k <= 3 && base-1+60*k <= now; k++ {
+			years = append(years, base-1+60*k)
+		}
 		set := map[int]bool{}
 		for _, y := range years {
 			set[y] = true
